@@ -149,6 +149,11 @@ SHAPES = [
      "doctext": ["Registers a user-defined macro for later.", "", "A note: this is not a function."]},
     {"k": "cpp_constructor", "doc": 1, "impl": "macro", "types": [], "params": [], "doctext": ["Macro constructor, see the macro note."]},
     {"k": "cpp_member", "doc": 1, "types": ["int"], "params": ["a"], "doctext": ["Not a macro although it says macro."]},
+    # the definition names a parameter at the position of the variadic marker 'args': it is paired like any other
+    {"k": "cpp_member", "doc": 1, "types": ["str", "args"], "params": ["fmt", "values"]},
+    {"k": "cpp_member", "doc": 0, "types": ["str", "args"], "params": ["fmt", "values", "more"]},
+    {"k": "cpp_constructor", "doc": 1, "types": ["args"], "params": ["rest"], "impl": "macro"},
+    {"k": "cpp_member", "doc": 1, "types": ["args", "int"], "params": ["first", "n"]},
     # declared types, but the definition names no parameter (it reads ARGV/ARGN)
     {"k": "cpp_member", "doc": 1, "types": ["int", "args"], "params": []},
     {"k": "cpp_member", "doc": 0, "types": ["str", "bool"], "params": []},
